@@ -25,6 +25,14 @@ def cells(tier):
         # a stopped task parked in its (slow, async) cancel callback when the next stop arrives
         sc = scen(pool(size, "SimpleTaskPool", ecb="plain", ccb="slow", slow_ids=[1, 2]), [[S("S", 3)], [["stop", 1], ["stop", 1]], [["stop_all"]]], outcomes=["ret"])
         out.append(cell(f"s{size} S3 stop1,stop1 stop_all slowccb", sc, MON))
+    # the pool is used again after an attempt to close it failed (a worker raised) or was cancelled
+    sc = scen(pool("inf", "SimpleTaskPool", ecb="plain", ccb="plain"), [[S("S", 3)], [["gac", {"when": "quiet_idle"}]], [["cancel_op", 1]],
+                [["unlock", {"after": [1, 1], "after_done": True}], S("T", 1), ["stop", 2]]], outcomes=["ret"])
+    # (the close is only attempted once every created task has had its first step: cancelling the caller of
+    # gather_and_close() cancels the gathered tasks through asyncio itself, see DESIGN.md "observations outside the properties")
+    out.append(cell("sinf S3|gac@idle|cancel-the-close|unlock,T1,stop(2)", sc, MON))
+    sc = scen(pool(3, "SimpleTaskPool", ecb="plain", ccb="plain"), [[S("S", 3)], [GAC], [["unlock", {"after": [1, 1], "after_done": True}], ["stop", 1], ["stop_all"]]], outcomes=["ret", "exc"])
+    out.append(cell("s3 S3|gac(fails)|unlock,stop(1),stop_all", sc, MON))
     # two SimpleTaskPools in one loop whose task ids coincide: a stop on one never touches the other's tasks
     for size in [2, "inf"]:
         sc = scen([pool(size, "SimpleTaskPool", ecb="plain", ccb="plain"), pool(size, "SimpleTaskPool", ecb="plain", ccb="plain")],
